@@ -19,6 +19,7 @@ type c03Case struct {
 	RefLay   Layout  `json:"ref_layout"`
 	AlnLay   Layout  `json:"aln_layout"`
 	HardGaps bool    `json:"hard_gaps"`
+	CLI      bool    `json:"cli,omitempty"`
 }
 
 func c03Expected(c c03Case) string {
@@ -73,6 +74,17 @@ func checkC03(c c03Case, o *Obs) error {
 	if out.String() != want {
 		return fmt.Errorf("snps output differs from the set-disjointness model\n got: %q\nwant: %q\n%s", trunc(out.String(), 600), trunc(want, 600), firstDiff(out.String(), want))
 	}
+	if c.CLI && gofastaBin() != "" {
+		dir, cleanup := caseDir("c03cli")
+		defer cleanup()
+		args := []string{"snps", "-r", writeFile(dir, "ref.fa", refTxt), "-q", writeFile(dir, "aln.fa", alnTxt)}
+		if c.HardGaps {
+			args = append(args, "--hard-gaps")
+		}
+		if err := cliAgree(o, "snps", want, args...); err != nil {
+			return err
+		}
+	}
 	return nil
 }
 
@@ -111,6 +123,7 @@ func genC03(t *rapid.T) c03Case {
 	}
 	c.RefLay = genLayout(t, w)
 	c.AlnLay = genLayout(t, w)
+	c.CLI = rapid.IntRange(0, 29).Draw(t, "cli") == 0
 	return c
 }
 
